@@ -101,7 +101,15 @@ func suffixBlame(c *Ctx, rel map[string]bool, t LogCase) bool {
 	if err != nil {
 		return false
 	}
-	return logImpl(ts, false).String() != mm.String()
+	if logImpl(ts, false).String() != mm.String() {
+		return true
+	}
+	// ...and against the implementation's own answer for the whole pipeline: what the prefix left behind may be
+	// more than its printed labels say (`| json` leaves numbers and booleans typed), and the property's stages
+	// must treat such a value like its text
+	full := t
+	full.Limit = -1
+	return logImpl(full, false).String() != mm.String()
 }
 
 // c08PartitionFails states C08's partition clause on the implementation alone and within ONE run: the query
@@ -197,6 +205,31 @@ func init() {
 			}
 			fixAmbiguity(t.Stages)
 			t.Recs = genRecs(r, t.Stages, 8)
+			if r.Intn(10) == 0 {
+				// a failing template on a record that already went through an error: the parser stage flags the line,
+				// `drop __error__` (or keep without it) removes the flag but not the details, then the template fails and
+				// must flag the line again
+				fail := []TplPart{{Kind: "lit", Text: "x"}, {Kind: "fail"}}
+				last := LStage{Kind: "linefmt", Tpl: fail}
+				if r.Intn(2) == 0 {
+					last = LStage{Kind: "lblfmt", Tpls: []LTplLabel{{Dst: "dst", T: fail}}}
+				}
+				t.Stages = []LStage{{Kind: pick(r, []string{"json", "logfmt"})}, {Kind: "drop", Labels: []string{pick(r, []string{"__error__", "__error__", "__error_details__"})}}, last}
+				for i := range t.Recs {
+					t.Recs[i].Body = pick(r, []string{"not json", `{"a":1`, `a="unterminated`, `{"a":"ok"}`, "a=ok"})
+				}
+			} else if r.Intn(8) == 0 {
+				// value matchers of drop/keep against typed label values: `| json` leaves numbers and booleans typed;
+				// a matcher sees their text (200, 2.5, true) like the text of a string member
+				st := LStage{Kind: pick(r, []string{"drop", "keep"})}
+				for _, l := range distinctStrings(r, []string{"n", "ok", "f", "s"}, 1+r.Intn(2)) {
+					st.Matchers = append(st.Matchers, LMatcher{Label: l, Op: pick(r, []string{"eq", "ne"}), Value: pick(r, []string{"200", "1", "true", "false", "2.5", "u", ""})})
+				}
+				t.Stages = []LStage{{Kind: "json"}, st}
+				for i := range t.Recs {
+					t.Recs[i].Body = fmt.Sprintf(`{"n":%s,"ok":%s,"f":%s,"s":%q}`, pick(r, []string{"200", "1", `"200"`, `"1"`}), pick(r, []string{"true", "false", `"true"`}), pick(r, []string{"2.5", "1", `"2.5"`}), pick(r, []string{"u", "200", ""}))
+				}
+			}
 			return t
 		}
 		spec.PropertyFails = logStageBlame(c, "lblfmt", "linefmt", "drop", "keep", "decolorize")
